@@ -411,6 +411,34 @@ def main_check(pid, tier):
                 break
         if not ok:
             unreproduced.append((cls, last))
+    # regression corpus: the minimised histories of every defect found so far (findings/*.json, fixed ones included) are re-executed
+    # on every run, whatever the seed samples - a defect that returns is reported from its committed replay
+    import glob as _glob
+
+    open_replays = {os.path.join(VERIF, k["replay"]) for k in kf if k.get("status") == "open" and k.get("replay")}
+    n_corpus = 0
+    for path in sorted(_glob.glob(os.path.join(VERIF, "findings", "*.json"))):
+        if path in open_replays:
+            continue
+        try:
+            with open(path) as f:
+                rep = json.load(f)
+        except ValueError:
+            continue
+        if rep.get("property") != pid or "scenario" not in rep:
+            continue
+        n_corpus += 1
+        try:
+            classes, res = execute_classes(mod, rep["scenario"])
+        except Exception as e:  # pylint: disable=broad-except
+            sys.stdout.write("note: corpus scenario %s could not be executed: %r\n" % (os.path.basename(path), e))
+            continue
+        bad = [v for v in res.get("violations") or [] if match_known(pid, v, kf) is None]
+        if bad:
+            sys.stdout.write("violation %s %s (regression corpus): %s\n" % (bad[0]["rule"], bad[0]["classifier"], json.dumps(bad[0].get("detail"), default=str)[:600]))
+            sys.stdout.write("VIOLATION property=%s replay=%s\n" % (pid, path))
+            status = 1
+    total["sums"]["regression_corpus_scenarios"] = n_corpus
     for cls, last in unreproduced:
         # a deviation seen in a worker process that no single scenario reproduces in a fresh interpreter depends on what
         # ran earlier in that process; it is reported as a harness-level problem only if nothing else was reported
